@@ -68,8 +68,19 @@ Record prog := {
   p_order : rdag -> list key;                    (* nx.topological_sort of a reduced DAG *)
   p_succ_order : key -> list key;                (* nx.descendants_at_distance(graph, n, 1) as iterated *)
   p_thread_ready : bool;
-  p_process_ready : bool
+  p_process_ready : bool;
+  (* _get_first_error_in_tasks iterates a SET of Task objects: which of several failed helper tasks run() reports is not
+     determined by the program (address order); the choice is an oracle like the two library orders above *)
+  p_pick : list exn -> nat
 }.
+
+Definition pick_error (P : prog) (e : exn) (r : list exn) : exn := nth (p_pick P (e :: r)) (e :: r) e.
+Lemma pick_error_in P e r : In (pick_error P e r) (e :: r).
+Proof.
+  unfold pick_error. destruct (Nat.ltb (p_pick P (e :: r)) (length (e :: r))) eqn:E.
+  - apply nth_In. apply Nat.ltb_lt. exact E.
+  - rewrite nth_overflow; [left; reflexivity|]. apply Nat.ltb_ge. exact E.
+Qed.
 
 Section Engine.
   Variable P : prog.
@@ -276,7 +287,7 @@ Section Engine.
       if run_pred st then
         let st1 := emit_obs (ORunDone (task_errors st)) st in
         match task_errors st with
-        | e :: _ => (cancel_tasks (helper_tids st1) st1, DRet (SThrow e))
+        | e :: r => (cancel_tasks (helper_tids st1) st1, DRet (SThrow (pick_error P e r)))
         | [] => (cancel_tasks (helper_tids st1) st1, DRet (SVal (get_result out true (st_store st))))
         end
       else (st, DSuspend (WCond CRun) [FRunWait])
